@@ -338,3 +338,40 @@ def paren_depth_counter(ctx):
                         step_ok = self_ok and one
                 ctx.check(step_ok, body.key, 'counter step is +-1', 'the depth counter is updated at line %d by something other than '
                           '`counter + 1` / `counter - 1`: nested groups are closed at the wrong parenthesis' % ln, 'counter +- 1', body.where(ln))
+
+
+AP = 'abe_policy::access_policy::AccessPolicy'
+
+
+@rule('C15', 'and-or-identities')
+def and_or_identities(ctx):
+    """'logically equivalent to the boolean expression': `*` (Broadcast) is the identity of AND and absorbs OR. Structurally,
+    `bitand` returns one of its two operands or a Conjunction of both — it never builds Broadcast itself (`x & *` must stay x,
+    not become `*`) — and `bitor` returns an operand or a Disjunction of both."""
+    F = ctx.F
+    for (key, comb, forbidden) in (('<%s as std::ops::BitAnd>::bitand' % AP, 'Conjunction', ('Broadcast', 'Disjunction')),
+                                   ('<%s as std::ops::BitOr>::bitor' % AP, 'Disjunction', ('Conjunction',))):
+        body = F.fn(key)
+        aggs = []
+        for fb in lib.family_ext(F, key):
+            for b in sorted(fb.live_blocks()):
+                for st in fb.stmts(b):
+                    rv = st['rv']
+                    if rv['k'] == 'agg' and rv.get('adt') == AP:
+                        aggs.append((fb, st, rv['variant']))
+        bad = [(fb, st, v) for (fb, st, v) in aggs if v in forbidden]
+        ctx.check(not bad and any(v == comb for (_f, _s, v) in aggs), key, 'returns an operand or %s(lhs, rhs)' % comb,
+                  '%s builds %s: `x & *` must be x and `x | *` must be `*` — a policy with `*` inside a conjunction would otherwise '
+                  'collapse to broadcast' % (key.split('::')[-1], [v for (_f, _s, v) in bad] or 'no %s' % comb),
+                  'constructs %s only' % comb, body.where())
+        # both operands of the combination are the two parameters
+        for (fb, st, v) in aggs:
+            if v != comb or fb is not body:
+                continue
+            ps = set()
+            for o in st['rv']['ops']:
+                for s in lib.copy_chain_sources(body, o, through_calls=(r'^std::boxed::Box::<T>::new$',) + tuple(lib.IDENTITY_CALLS)):
+                    if s[0] == 'param':
+                        ps.add(s[1])
+            ctx.check(ps == {1, 2}, key, '%s of both operands' % comb, 'the %s built at line %d does not combine the two operands (%s)'
+                      % (comb, st['ln'], sorted(ps)), 'lhs and rhs', body.where(st['ln']))
